@@ -34,6 +34,7 @@ var allSpecs = []HarnessSpec{
 	{Prop: "C07", Func: "ZZ_C07_Concurrency", Tag: "shape=2,failing", POR: true, Replay: "native", Params: map[string]int{"shape": 2, "maxconc": 1, "failing": 1, "__coarse": 1}},
 	{Prop: "C07", Func: "ZZ_C07_CallLimit", Replay: "native", Twin: true},
 	{Prop: "C11", Func: "ZZ_C11_DynamicVar", Replay: "native", Twin: true},
+	{Prop: "C11", Func: "ZZ_C11_Deferred", Replay: "native", Twin: true},
 	{Prop: "C11", Func: "ZZ_C11_Isolation", Replay: "native", Twin: true},
 	{Prop: "C13", Func: "ZZ_C13_Guards", POR: true, Replay: "native", Twin: true, Params: map[string]int{"__coarse": 1}},
 	{Prop: "C14", Func: "ZZ_C14_Defer", POR: true, Replay: "native", Twin: true, Params: map[string]int{"__coarse": 1}},
@@ -59,6 +60,7 @@ var allSpecs = []HarnessSpec{
 	{Prop: "C20", Pkg: "taskfile", Func: "ZZ_C20_Insecure", Replay: "native", Twin: true},
 	{Prop: "C18", Func: "ZZ_C18_Kernel", Tag: "shape=2", POR: true, Replay: "native-race", Twin: true, Params: map[string]int{"shape": 2, "failing": 1, "__coarse": 1, "__race": 1}},
 	{Prop: "C18", Func: "ZZ_C18_Kernel", Tag: "shape=1", POR: true, Replay: "native-race", Params: map[string]int{"shape": 1, "failing": 1, "__coarse": 1, "__race": 1}},
+	{Prop: "C18", Func: "ZZ_C18_Deferred", POR: true, Replay: "native-race", Params: map[string]int{"__coarse": 1, "__race": 1}},
 	{Prop: "C18", Func: "ZZ_C18_Compile", POR: true, Replay: "native-race", Twin: true, Params: map[string]int{"__coarse": 1, "__race": 1}},
 	{Prop: "C18", Pkg: "internal/output", Func: "ZZ_C17_Prefixed", Tag: "race", POR: true, Replay: "native-race", Params: map[string]int{"maxchunks": 1, "__coarse": 1, "__race": 1}},
 	{Prop: "C18", Pkg: "internal/output", Func: "ZZ_C17_Group", Tag: "race", POR: true, Replay: "native-race", Params: map[string]int{"maxchunks": 1, "__coarse": 1, "__race": 1}},
